@@ -145,6 +145,38 @@ Definition scaled_arith : arith :=
 (* rounded Horner as coded *)
 Definition horner_fl (A : arith) := horner_coded C (RtoC 0) (fadd A) (fmul A).
 
+(* mps_mhorner_sparse in rounded arithmetic: the generic scheme with the rounded operations (the squaring
+   mpc_sqr_eq (y) is a rounded product) *)
+Definition sparse_fl (A : arith) (q : nat) (x : C) (l : list (option C)) : C :=
+  sparse_eval C (RtoC 0) (fadd A) (fmul A) q x l.
+(* error exponent of q passes: e_0 = 0; one pass adds 2 (one product, one sum) plus the exponent
+   2^j - 1 carried by the j times squared y.  sparse_expo q + 1 = 2^q + q (EvalSparse.sparse_expo_closed) *)
+Fixpoint sparse_E (q g h : nat) : nat :=
+  match q with O => g | S q' => sparse_E q' (g + h + 2) (2 * h + 1) end.
+Definition sparse_expo (q : nat) : nat := sparse_E q 0 0.
+Fixpoint Cpow (z : C) (n : nat) : C := match n with O => RtoC 1 | S n' => (z * Cpow z n')%C end.
+(* the input x^n alone: 2^k absent coefficients followed by a *)
+Definition monomial_input (k : nat) (a : C) : list (option C) := repeat None (2 ^ k) ++ [Some a].
+
+(* Chebyshev: rounded forward recurrence, specification value, and the majorant recurrence on moduli
+   t_0 = 1, t_1 = r, t_{k+1} = 2 r t_k + t_{k-1} *)
+Definition cheb_fl (A : arith) (cs : list C) (x : C) : C :=
+  cheb_eval C (RtoC 0) (RtoC 1) (fadd A) (fmul A) (fsub A) cs x.
+Definition chebC (cs : list C) (x : C) : C := cheb_sum C (RtoC 0) (RtoC 1) Cplus Cmult Cminus cs 0 x.
+Fixpoint chebabs_loop_R (cs : list C) (r t0 t1 acc : R) : R :=
+  match cs with
+  | [] => acc
+  | c :: rest => let t := 2 * r * t1 + t0 in chebabs_loop_R rest r t1 t (acc + Cmod c * t)
+  end.
+Definition chebabs_R (cs : list C) (r : R) : R :=
+  match cs with
+  | [] => 0
+  | c0 :: l' => match l' with
+                | [] => Cmod c0
+                | c1 :: rest => chebabs_loop_R rest r 1 r (Cmod c0 + Cmod c1 * r)
+                end
+  end.
+
 (* p~(r) = sum |a_j| r^j *)
 Fixpoint habs (l : list C) (r : R) : R :=
   match l with
